@@ -48,7 +48,7 @@ Qed.
 
 (* ---------------- refuting schedules ---------------- *)
 (* F3 before the repair a8f7c5d (nlink_check = false): Dead while the guard process lives *)
-Definition f3_sched : list nat := repeat 0%nat 15 ++ repeat 1%nat 9 ++ repeat 0%nat 2 ++ repeat 1%nat 2.
+Definition f3_sched : list nat := repeat 0%nat 15 ++ repeat 1%nat 9 ++ repeat 0%nat 2 ++ repeat 1%nat 4.
 Definition f3_run (nlc : bool) := run (step false nlc) f3_sched (init (progs_of (inst_mon None)) (kills_of (inst_mon None))).
 Lemma f3_before_repair : In (1%nat, ERet OP_STATE VDead) (snd (f3_run false)) /\ crashed (snd (fst (f3_run false)) 0%nat) = false.
 Proof. vm_compute. split; [|reflexivity]. repeat (try (left; reflexivity); right). Qed.
